@@ -250,6 +250,33 @@ feature mark {
 }
 
 // Verify that features without `# Automatic Code` produce no insert markers.
+// `sub c by NULL;` after `sub a by b;` used to start a second lookup, and the
+// name of the block then referred to that second lookup only.
+#[test]
+fn null_sub_joins_single_sub_run() {
+    use write_fonts::tables::gsub::SubstitutionLookup;
+
+    let compilation = compile_fea(
+        "\
+lookup L {
+    sub a by b;
+    sub c by NULL;
+} L;
+
+feature test {
+    lookup L;
+} test;
+",
+        "null_sub_joins_single_sub_run",
+    );
+    let gsub = compilation.gsub.as_ref().unwrap();
+    assert_eq!(gsub.lookup_list.lookups.len(), 1);
+    let SubstitutionLookup::Multiple(lookup) = &*gsub.lookup_list.lookups[0] else {
+        panic!("expected a multiple substitution lookup");
+    };
+    assert_eq!(lookup.subtables[0].sequences.len(), 2);
+}
+
 #[test]
 fn no_insert_markers_without_automatic_code() {
     let compilation = compile_fea(
